@@ -1013,10 +1013,11 @@ class SyncState:  # pylint: disable=too-many-instance-attributes, too-many-publi
         if file_hash is not None and file_hash != ent[side].hash:
             ent[side].hash = file_hash
 
-        if ent[side].exists is TRASHED and exists is True:
+        if ent[side].exists in (TRASHED, LIKELY_TRASHED) and exists is not False:
             # oid was deleted, and then re-created, this can only happen for oid-is-path providers
             # we mark it as LIKELY_TRASHED, to protect against out-of-order events
             # see: https://vidaid.atlassian.net/browse/VFM-7246
+            # (the tombstone survives any number of stale "exists"/"unknown" events until the truth is re-read)
             ent[side].exists = LIKELY_TRASHED
         else:
             ent[side].exists = exists
